@@ -4,7 +4,7 @@ from fractions import Fraction
 from checks import meshes as M
 from irsym import sym as S
 
-OPS = {0: 'split', 1: 'merge', 2: 'swap', 3: 'refine_mesh', 4: 'refine;rebase;move;refine;rebase', 5: 'rebase', 6: 'merge-then-split (slot reuse)'}
+OPS = {0: 'split', 1: 'merge', 2: 'swap', 3: 'refine_mesh', 4: 'refine;rebase;move;refine;rebase', 5: 'rebase', 6: 'merge-then-split (slot reuse)', 7: 'merge-then-split-then-rebase'}
 
 class State:
     pass
